@@ -2,10 +2,10 @@
    Theorem-only file: every proof is `exact <lemma>`; Print Assumptions under each.
    Theorems: the sagitta bound behind arc_num_points (over R), section bookkeeping of Curve (over Q),
    de Casteljau = Bernstein, the exact distance oracle, rectangle / cross vertices.
-   Refuted on the current tree (witnesses): the Bezier step rule (F11), last_ctrl of a relative
-   bezier (F17).  Validated per run (harness/c15.cpp + ocaml/c15_driver.ml): the implementation's
-   vertices against these oracles; F12 (elliptical arcs sized from the untransformed span) is found
-   there. *)
+   The model follows the fixed code: the Bezier step rule clamps (F11, 66f871b), bezier stores the
+   absolute penultimate control point (F17, 7a14b8c), Curve::arc sizes from the parametric span (F12,
+   4b3b094); the former witnesses are kept as regression Examples.  Validated per run
+   (harness/c15.cpp + ocaml/c15_driver.ml): the implementation's vertices against these oracles. *)
 From Coq Require Import QArith ZArith Reals List.
 Require Import Generated Bezier BezierProofs ArcBound.
 Import ListNotations.
@@ -41,13 +41,21 @@ Theorem arc_chord_deviation : forall cx cy r m d phi l,
   = (r * (cos phi - cos d)) * (r * (cos phi - cos d)).
 Proof. exact chord_deviation_formula. Qed.
 
-(* the NaN condition of `acos(1 - curvature*tolerance)` is the rational inequality of the model *)
+(* the clamp condition `1 - curvature*tolerance < -1` is the rational inequality of the model *)
 Theorem step_rule_rational : forall n2 c tol : R, 0 < n2 -> 0 < tol ->
   let len := sqrt n2 in
   let curvature := Rabs c / (len * len * len) in
   (1 - curvature * tol < -1 <-> 4 * (n2 * n2 * n2) < c * c * (tol * tol))
   /\ 1 - curvature * tol <= 1.
 Proof. exact step_rule_rational_lemma. Qed.
+
+(* the step angle `2 * (c < -1 ? pi : acos c)` is defined for every input: acos only sees [-1,1] *)
+Theorem step_rule_defined : forall curvature tol : R, 0 <= curvature -> 0 <= tol ->
+  let c := 1 - curvature * tol in
+  (~ c < -1 -> -1 <= c <= 1)
+  /\ 0 <= step_angle curvature tol <= 2 * PI
+  /\ (0 < curvature * tol -> 0 < step_angle curvature tol).
+Proof. exact step_rule_defined_lemma. Qed.
 
 (* why K = 4 is safe for cubic sections: the two-point acceptance test of append_cubic *)
 Theorem cubic_two_point_bound : forall al be tol s : R,
@@ -61,6 +69,7 @@ Print Assumptions arc_sagitta_bound.
 Print Assumptions arc_core_inequality.
 Print Assumptions arc_chord_deviation.
 Print Assumptions step_rule_rational.
+Print Assumptions step_rule_defined.
 Print Assumptions cubic_two_point_bound.
 
 Local Open Scope Q_scope.
@@ -83,8 +92,8 @@ Proof. exact decasteljauZ_lemma. Qed.
 Print Assumptions decasteljauZ_exact.
 
 (* every call, from every state: sections chain from the current point, end at the requested
-   points, last_ctrl is the penultimate control point (except relative bezier, arcs), smooth calls
-   reflect it *)
+   points, last_ctrl is the penultimate control point (arcs: end point + given vector), smooth
+   calls reflect it *)
 Theorem section_call : forall st c st' secs,
   wf_call c -> run_call st c = Some (st', secs) -> call_ok st c st' secs.
 Proof. exact section_call_lemma. Qed.
@@ -97,8 +106,7 @@ Proof. exact section_endpoints_lemma. Qed.
 Print Assumptions section_endpoints.
 
 Theorem smooth_continuation : forall st c1 st1 s1 c2 st2 s2,
-  wf_call c1 -> wf_call c2 -> is_rel_bezier c1 = false -> is_arc c1 = false ->
-  is_smooth c2 = true ->
+  wf_call c1 -> wf_call c2 -> is_arc c1 = false -> is_smooth c2 = true ->
   run_call st c1 = Some (st1, s1) -> run_call st1 c2 = Some (st2, s2) ->
   s1 <> [] -> s2 <> [] ->
   let prev := last s1 dsec in let next := hd dsec s2 in
@@ -107,28 +115,17 @@ Theorem smooth_continuation : forall st c1 st1 s1 c2 st2 s2,
 Proof. exact smooth_continuation_lemma. Qed.
 Print Assumptions smooth_continuation.
 
-(* F17 *)
-Theorem bezier_last_ctrl_relative_refuted_thm :
-  exists st ps st' secs,
-    wf_call (CBezier true ps) /\ run_call st (CBezier true ps) = Some (st', secs)
-    /\ lctl st' = (2, 1) /\ penult (sec_ctrl (last secs dsec)) = (100 + 2, 100 + 1)
-    /\ ~ pteq (lctl st') (penult (sec_ctrl (last secs dsec))).
-Proof. exact bezier_last_ctrl_relative_refuted. Qed.
-Print Assumptions bezier_last_ctrl_relative_refuted_thm.
+(* F17, now a theorem *)
+Theorem bezier_last_ctrl_relative : forall st ps st' secs,
+  wf_call (CBezier true ps) -> run_call st (CBezier true ps) = Some (st', secs) ->
+  secs <> [] /\ lctl st' = penult (sec_ctrl (last secs dsec)).
+Proof. exact bezier_last_ctrl_relative_lemma. Qed.
+Print Assumptions bezier_last_ctrl_relative.
 
-(* F11 *)
-Theorem step_rule_nan_refuted_thm :
-  (exists ctrl tol t, length ctrl = 4%nat /\ 0 < tol /\ 0 <= t <= 1 /\
-     step_rule_nan_condition (decasteljau t (deriv1 ctrl)) (decasteljau t (deriv2 ctrl)) tol)
-  /\ (exists ctrl tol, length ctrl = 4%nat /\ 0 < tol /\ ctrl_span_lt_quarter ctrl = true /\
-     step_rule_nan_condition (decasteljau 0 (deriv1 ctrl)) (decasteljau 0 (deriv2 ctrl)) tol).
-Proof. exact step_rule_nan_refuted. Qed.
-Print Assumptions step_rule_nan_refuted_thm.
-
-Theorem step_rule_nan_decidable : forall dc d2c tol,
-  step_rule_nan_b dc d2c tol = true <-> step_rule_nan_condition dc d2c tol.
-Proof. exact step_rule_nan_b_lemma. Qed.
-Print Assumptions step_rule_nan_decidable.
+Theorem step_rule_clamp_decidable : forall dc d2c tol,
+  step_rule_clamp_b dc d2c tol = true <-> step_rule_clamp_condition dc d2c tol.
+Proof. exact step_rule_clamp_b_lemma. Qed.
+Print Assumptions step_rule_clamp_decidable.
 
 (* the distance oracle *)
 Theorem seg_closer_than_correct : forall p a b r,
@@ -168,6 +165,20 @@ Theorem cross_vertices : forall cx cy s w,
   /\ shoelace2 (cross_pts (cx, cy) s w) == 2 * (2 * s * w - w * w).
 Proof. exact cross_vertices_lemma. Qed.
 Print Assumptions cross_vertices.
+
+(* regression inputs of the fixed defects F17 and F11 *)
+Example c15_bezier_last_ctrl_regression :
+  exists st' secs,
+    run_call (mkst (100, 100) (100, 100)) (CBezier true [(1, 0); (2, 1); (3, 0)]) = Some (st', secs)
+    /\ lctl st' = (102, 101) /\ cur st' = (103, 100).
+Proof. exact bezier_last_ctrl_relative_example. Qed.
+
+Example c15_step_rule_clamp_regression :
+  (exists ctrl tol t, length ctrl = 4%nat /\ 0 < tol /\ 0 <= t <= 1 /\
+     step_rule_clamp_condition (decasteljau t (deriv1 ctrl)) (decasteljau t (deriv2 ctrl)) tol)
+  /\ (exists ctrl tol, length ctrl = 4%nat /\ 0 < tol /\ ctrl_span_lt_quarter ctrl = true /\
+     step_rule_clamp_condition (decasteljau 0 (deriv1 ctrl)) (decasteljau 0 (deriv2 ctrl)) tol).
+Proof. exact step_rule_clamp_regression_example. Qed.
 
 (* non-vacuity *)
 Example c15_nonvacuous :
